@@ -109,6 +109,7 @@ typedef struct {
 LongInt    MomLocHandle; /* Merker, den lokale Symbole erhalten        */
 LongInt    FwdSymCounter, BackSymCounter;
 String     TmpSymCounterVal; /* representation as string                   */
+static LongInt TmpSymCounter; /* # of non-temporary symbols defined so far  */
 TTmpSymLog TmpSymLog[LOCSYMSIGHT];
 LongInt    TmpSymLogDepth;
 
@@ -533,6 +534,7 @@ Boolean ExpandStrSymbol(char* pDest, size_t DestSize, tStrComp const* pSrc) {
 
 void InitTmpSymbols(void) {
     FwdSymCounter = BackSymCounter = 0;
+    TmpSymCounter                  = 0;
     *TmpSymCounterVal              = '\0';
     TmpSymLogDepth                 = 0;
     *LastGlobSymbol                = '\0';
@@ -575,8 +577,17 @@ static Boolean ChkTmp1(char* Name) {
             SHA1_CTX sha;
             Byte     results[20];
 
+            char     Counter[32];
+
+            /* every definition of a non-temporary symbol opens a new name space
+               for $$ symbols, also if a name is defined once more (SET, same
+               name in another section): hash the running number along with
+               the name */
+
+            as_snprintf(Counter, sizeof(Counter), "#%ld", (long)TmpSymCounter);
             SHA1Init(&sha);
             SHA1Update(&sha, (unsigned char*)LastGlobSymbol, strlen(LastGlobSymbol));
+            SHA1Update(&sha, (unsigned char*)Counter, strlen(Counter));
             SHA1Final(results, &sha);
             SHA1ToHexString(results, TmpSymCounterVal);
         }
@@ -683,6 +694,7 @@ static Boolean ChkTmp3(char* Name, as_symbol_source_t symbol_source) {
 
     if (symbol_source != e_symbol_source_none) {
         strmaxcpy(LastGlobSymbol, Name, STRINGSIZE);
+        TmpSymCounter++;
         *TmpSymCounterVal = '\0';
     }
     return False;
